@@ -223,7 +223,7 @@ def check_one(c):
                 got=tot.tolist(), ref=pref[idx].tolist())
         if mode == "density":
             ref_p = U @ rho_prec @ U.conj().t()
-            tol_p = 1e-11 * float(rho_prec.abs().max())
+            tol_p = (1e-11 + 1e-14 / max(gen.min_aux_factor(sc), 1e-12)) * float(rho_prec.abs().max())      # see c02.py: digits lost where an auxiliary-unit factor nearly vanishes
             full_p = R.lib_to_c(UN.rotate_rho(st_, basis, space, **ukw))
             require(bool(torch.all((full_p - ref_p).abs() <= tol_p)) and bool(torch.all((tot.double() - ref_p.diagonal().real[idx]).abs() <= tol_p)), "precision:rotate_rho",
                     f"rotate_rho / rotate_rho_probs of the model's state are not accurate to double precision (basis {basis})", worst=float((full_p - ref_p).abs().max()), tol=tol_p)
